@@ -18,6 +18,12 @@ CHECKS = {
 NOT_BUILT = "check under construction in this round (see DESIGN.md section 4 for the planned harnesses)"
 
 def main():
+    import glob
+    for f in sorted(glob.glob(os.path.join(ROOT, "checks", "c*.manifest.json"))):
+        d = json.load(open(f))
+        CHECKS[d["property_id"]] = d
+        if d.get("not_applicable_reason"):
+            NA[d["property_id"]] = d["not_applicable_reason"]; CHECKS.pop(d["property_id"])
     props = [json.loads(l) for l in open(os.path.join(ROOT, "properties.jsonl"))]
     checks, na = [], []
     for p in props:
